@@ -150,6 +150,16 @@ def _h5copy_shape(repo):
             or d.get("keep_id") != "True":
         raise ExtractError("H5Group.copy: signature changed: (%s) %s" % (", ".join(names), d))
     body = _stmts(fn.body)
+    # argument checks in front of the copy (fix 6e5e1c9, f4ba150: asked before anything is copied) are pure: they
+    # normalise / refuse an argument and write nothing. The model's flag is a Bool and its names are storable texts,
+    # on which both are the identity, so they are dropped here (any other statement in that place breaks the tie).
+    PRECHECKS = {"keep_id = bool(keep_id)",
+                 "if isinstance(name, str):\n    name = str(name)\n    util.check_text_storable(name)"}
+    if body and _u(body[0]) == "grp = self.group":
+        k = 1
+        while k < len(body) and _u(body[k]) in PRECHECKS:
+            k += 1
+        body = body[:1] + body[k:]
     expected_head = ["grp = self.group", "dest.open_group(cls, create=True)", "dest_grp = dest.group[cls]",
                      "grp.copy(source=source, dest=dest_grp, name=name, shallow=shallow)", "grp = dest_grp[name]"]
     head = [_u(s) for s in body[:5]]
